@@ -62,6 +62,15 @@ def search_frame(seed, n):
                 e["est"] = [x * sc for x in e["est"]]
                 g = G.rebuild(desc)
                 far = True
+        if rng.random() < 0.25:
+            cand = [v for v in desc["vertices"][1:] if not v["fixed"]]
+            if cand:
+                v0 = rng.choice(cand)
+                ident = np.asarray({"PoseSE2": G.mk_pose("PoseSE2", [0, 0, 0]), "PoseSE3": G.mk_pose("PoseSE3", [0, 0, 0, 0, 0, 0, 1]), "PoseR2": G.mk_pose("PoseR2", [0, 0]), "PoseR3": G.mk_pose("PoseR3", [0, 0, 0])}[v0["cls"]]).tolist()
+                v0["vals"] = ident  # exactly the origin / identity (an uninitialised-looking but legal estimate)
+                desc["vertex_at_origin"] = v0["id"]
+                g = G.rebuild(desc)
+                far = True  # a far initial guess: one iteration only (one linear solve, no chaotic amplification)
         pose_t = {"2d": "PoseSE2", "3d": "PoseSE3", "r2": "PoseR2", "r3": "PoseR3"}[world]
         tscale = rng.choice([1.0, 100.0, 1e4, 1e6, 1e7])
         if pose_t == "PoseSE3":
@@ -115,15 +124,15 @@ def search_frame(seed, n):
 # ----------------------------------------------------------------------------- C08
 
 
-def compare_graphs(gA, gB, mapB, what, desc, ev, iters, extra=None, chi_scale=1.0):
+def compare_graphs(gA, gB, mapB, what, desc, ev, iters, extra=None, chi_scale=1.0, ffp=False):
     """chi2 equal (up to chi_scale) and, after `iters` iterations with tol=0, the same poses; mapB: vertex id in A -> vertex in B"""
     cA, cB = float(gA.calc_chi2()), float(gB.calc_chi2())
     w = lambda msg, **kw: dict(kind="representation", what=what + ": " + msg, match=(extra or {}).get("match", "repr:" + what), desc=desc, **kw)
     if not abs(cA * chi_scale - cB) <= 1e-9 * (1 + abs(cB)):
         return w("chi2 changed", chi2=cA, chi2_variant=cB, expected_ratio=chi_scale)
     if iters:
-        quiet_optimize(gA, tol=0.0, max_iter=iters, fix_first_pose=False)
-        quiet_optimize(gB, tol=0.0, max_iter=iters, fix_first_pose=False)
+        quiet_optimize(gA, tol=0.0, max_iter=iters, fix_first_pose=ffp)
+        quiet_optimize(gB, tol=0.0, max_iter=iters, fix_first_pose=ffp)
         if not all(np.all(np.isfinite(np.asarray(v.pose))) for v in gA._vertices):
             return None
         for v in gA._vertices:
@@ -159,6 +168,10 @@ def search_representation(seed, n):
             rng.shuffle(d2["edges"])
         elif variant == "relabel":
             new = rng.sample(range(-(2**40), 2**40), len(d2["vertices"]))
+            if rng.random() < 0.5:
+                # small labels: a permutation of 0..n-1 (label 0 usually lands on a vertex that is not the first one)
+                new = list(range(len(d2["vertices"])))
+                rng.shuffle(new)
             idmap = {v["id"]: n_ for v, n_ in zip(desc["vertices"], new)}
             for v in d2["vertices"]:
                 v["id"] = idmap[v["id"]]
@@ -245,7 +258,9 @@ def search_representation(seed, n):
         for v in gA._vertices:
             mapB[v.id] = byid[idmap[v.id]]
         ev += 1
-        r = compare_graphs(gA, gB, mapB, variant, desc, ev, iters, extra, chi_scale)
+        # relabelling / permuting edges keeps the vertex order: the default fix_first_pose=True is the same physical graph too
+        ffp_ = variant.split("+")[0] in ("relabel", "perm_edges") and rng.random() < 0.6
+        r = compare_graphs(gA, gB, mapB, variant, desc, ev, iters, extra, chi_scale, ffp=ffp_)
         if r is not None and r["match"] not in found:
             found[r["match"]] = r
             if r["match"] != "quat-sign:odometry:cross-terms":
